@@ -10,7 +10,10 @@ DESIGN_REF = 'DESIGN.md section 4, C04'
 TECHNIQUE = ("property-based testing: generated flag x outcome x timeout combinations on a "
              "virtual-time loop; the expected verdict and diagnosis of every scheduler run "
              "are derived from the observed trace (which critical jobs raised, which "
-             "non-forever jobs finished and when) and compared with what the run reported")
+             "non-forever jobs finished and when) and compared with what the run reported; "
+             "second runs of the same objects (after a first run that failed, with members "
+             "removed in between); enumerated: every exception class x every entry point "
+             "(run, orchestrate, co_run, ...) x scheduler class / critical / nested / verbose")
 LEVEL_TEXT = ("generated search with an oracle that is exact away from same-instant ties and "
               "accepts both outcomes on a tie; identity of the bubbling exception is checked "
               "by object identity")
